@@ -126,7 +126,7 @@ def _nodes_calling(c, f, names):
   return out
 
 
-@rule('C11.R4', 'K1', 4, 'a checkpoint is committed before any older or newer one is removed')
+@rule('C11.R4', 'K1', 5, 'a checkpoint is committed before any older or newer one is removed')
 def r4(R, repo):
   mod = repo.mod(CK)
   sc = mod.func('_save_commit')
@@ -137,6 +137,10 @@ def r4(R, repo):
   R.check(c.dominated(rem[0], ren), key_of(sc, 'rename(tmp, final) before _remove_invalid_ckpts'), (sc, rem[0].stmt),
           'old checkpoints are removed before the new one is renamed into place: a crash in between leaves fewer checkpoints than `keep` (possibly none)',
           witness=c.witness(c.entry, rem[0], avoid=ren))
+  final = astu.params(sc.node)[1]
+  destr = [x for x in astu.func_calls(sc) if astu.call_name(x) in ('_safe_remove', 'io.remove', 'io.rmtree') and x.args and astu.src(x.args[0]) == final]
+  R.check(not destr, key_of(sc, 'the committed file is replaced by the rename itself, never removed first'), (sc, destr[0]) if destr else sc,
+          '`%s` deletes the final checkpoint path before the rename: a crash between the two leaves neither the old nor the new checkpoint of that step (rename with overwrite replaces it atomically)' % (astu.short(destr[0]) if destr else ''))
   rn = [x for x in astu.func_calls(sc) if astu.call_name(x) == 'io.rename' and astu.src(x.args[0]) == astu.params(sc.node)[0]][0]
   R.check(astu.src(astu.kwarg(rn, 'overwrite')) == 'overwrite' and astu.src(rn.args[1]) == astu.params(sc.node)[1], key_of(sc, 'rename honours overwrite'), (sc, rn),
           'the commit rename must pass overwrite=overwrite (an existing step is replaced only on request)')
@@ -408,5 +412,6 @@ meta('C11',
          Mutant('C11-m7', IO, "    if os.path.exists(dst) and not overwrite:\n      raise errors.AlreadyExistsError(dst)\n    return os.rename(src, dst)", "    return os.rename(src, dst)", 'C11.R8'),
          Mutant('C11-m8', CK, "SIGNED_FLOAT_RE = re.compile(r'([-+]?(?:\\d+(?:\\.\\d*)?|\\.\\d+)(?:[eE][-+]?\\d+)?)')", "SIGNED_FLOAT_RE = re.compile(r'([-+]?(\\d+(?:\\.\\d*)?|\\.\\d+)(?:[eE][-+]?\\d+)?)')", 'C11.R10'),
          Mutant('C11-m9', CK, "  if not overwrite:\n    _check_overwrite_error(ckpt_tmp_path, ckpt_path, base_path, step)  # type: ignore\n\n  target = serialization.to_bytes(target)\n", "  target = serialization.to_bytes(target)\n", 'C11.R5', why='fails closed (anchor) is acceptable'),
+         Mutant('C11-m10', CK, "  io.rename(ckpt_tmp_path, ckpt_path, overwrite=overwrite)\n  logging.info('Saved checkpoint at %s', ckpt_path)\n", "  if overwrite and io.exists(ckpt_path):\n    _safe_remove(ckpt_path)\n  io.rename(ckpt_tmp_path, ckpt_path, overwrite=overwrite)\n  logging.info('Saved checkpoint at %s', ckpt_path)\n", 'C11.R4', why='seed C11-A'),
          Mutant('C11-b1', CK, "  io.rename(ckpt_tmp_path, ckpt_path, overwrite=overwrite)\n  logging.info('Saved checkpoint at %s', ckpt_path)\n", "  logging.info('Saving checkpoint at %s', ckpt_path)\n  io.rename(ckpt_tmp_path, ckpt_path, overwrite=overwrite)\n", kind='benign'),
      ])
